@@ -798,6 +798,11 @@ func (m *mappedFile) newCounter(name string) (v *atomic.Uint64, m1 *mappedFile, 
 }
 
 func (m *mappedFile) extend(end uint32) (*mappedFile, error) {
+	if end > ^uint32(0)-pageSize {
+		// Rounding up to the page size would overflow. Only a corrupt
+		// allocation limit can ask for a file this large.
+		return nil, errCorrupt
+	}
 	end = round(end, pageSize)
 	info, err := m.f.Stat()
 	if err != nil {
